@@ -478,6 +478,10 @@ def adaptive_pair(ck, n):
         c["adaptive"] = {"mode": "save_at", "save_at": [t0, t0 + Fr(1, 4), t0 + Fr(1, 2), t0 + Fr(1)], "atol": 0.1 * tol, "rtol": tol,
                          "dt0": float(Fr(1, ck.rng.choice([8, 32]))), "clip": ck.rng.random() < 0.5,
                          "control": ck.rng.choice([None, "i", "pi"])}
+        # both documented error norms and both estimators: the isotropic model reports ONE shared standard deviation (shape (1,)),
+        # the dense model d of them, and the acceptance test must not depend on that representation
+        c["error"] = {"est": ck.rng.choice(["residual", "residual", "state"]), "norm": ck.rng.choice([0, 1]), "relin": False,
+                      "per_unit": False, "idx": 0}
         for kind in ("dense", "iso", "twin"):
             r = as_kind(c, "dense" if kind == "twin" else kind)
             r.pop("jac")
@@ -489,7 +493,7 @@ def adaptive_pair(ck, n):
     for g, c in enumerate(probs):
         jc = gen.jsonable(c)
         cal = c["calib"]
-        mode = f"adaptive-{c['lin']}-{cal}"
+        mode = f"adaptive-{c['lin']}-{cal}-{c['error']['est']}-norm{c['error']['norm']}"
         rd, ri, rt = res[3 * g], res[3 * g + 1], res[3 * g + 2]
         steps = rd.get("num_steps")
         total = int(np.sum(steps)) if steps is not None and "error" not in rd else -1
